@@ -61,6 +61,8 @@ def run_c09(ctx):
     import l2
     res = l1_both(ctx)
     l2.c09_cli(ctx, res, 40 if not ctx.thorough() else 300)
+    if ctx.thorough():
+        l2.valgrind_samples(ctx, res, "C09")
     return res
 
 
@@ -72,6 +74,8 @@ def run_c05(ctx):
     import l2
     res = l1_both(ctx)
     l2.c05_cli(ctx, res, 200 if not ctx.thorough() else 1500)
+    if ctx.thorough():
+        l2.valgrind_samples(ctx, res, "C05")
     return res
 
 
@@ -89,7 +93,10 @@ def run_c20(ctx):
 def run_c06(ctx):
     import l2
     res = Result()
-    return l2.c06(ctx, res)
+    l2.c06(ctx, res)
+    if ctx.thorough():
+        l2.valgrind_samples(ctx, res, "C06")
+    return res
 
 
 def run_c07(ctx):
